@@ -656,7 +656,13 @@ func (g *gen) call(t int, pClose int) []call {
 				ws = append(ws, write{K: vx.Pick(r, keys), Val: g.value(t)})
 			}
 		}
-		return []call{{Kind: "batched", V: v}, {Kind: "commit", V: v, Ws: ws}}
+		cs := []call{{Kind: "batched", V: v}}
+		if r.Chance(1, 3) { // something else between Batched and Commit (possibly a Close)
+			if mid := g.call(t, pClose); len(mid) == 1 {
+				cs = append(cs, mid...)
+			}
+		}
+		return append(cs, call{Kind: "commit", V: v, Ws: ws})
 	}
 }
 
@@ -674,9 +680,28 @@ type hangInfo struct {
 }
 
 // runFree executes scripts[t] in goroutine t on a fresh store. Returns the records; hang != nil when the watchdog fired.
-func runFree(scripts [][]call, jitter []int, timeout time.Duration) (h []rec, fails []string, hang []string) {
+func runFree(scripts [][]call, jitter []int, rounds bool, timeout time.Duration) (h []rec, fails []string, hang []string) {
 	w := newWorld()
 	var ctr atomic.Int64
+	// rounds mode: the k-th calls of all goroutines are released together (spin barrier), so that they really race
+	var arrived atomic.Int64
+	var target []int64
+	if rounds {
+		acc := int64(0)
+		for k := 0; ; k++ {
+			n := 0
+			for _, sc := range scripts {
+				if len(sc) > k {
+					n++
+				}
+			}
+			if n == 0 {
+				break
+			}
+			acc += int64(n)
+			target = append(target, acc)
+		}
+	}
 	var start atomic.Bool
 	G := len(scripts)
 	recsOf := make([][]rec, G)
@@ -688,12 +713,22 @@ func runFree(scripts [][]call, jitter []int, timeout time.Duration) (h []rec, fa
 		go func(t int) {
 			defer wg.Done()
 			a := newActor(w)
-			for !start.Load() {
-				runtime.Gosched()
+			for spin := 1; !start.Load(); spin++ {
+				if spin%2000 == 0 {
+					runtime.Gosched()
+				}
 			}
 			idx := 0
 			skipCommit := false
 			for ci, c := range scripts[t] {
+				if rounds {
+					arrived.Add(1)
+					for spin := 1; arrived.Load() < target[ci]; spin++ {
+						if spin%2000 == 0 {
+							runtime.Gosched() // mostly busy-wait: all goroutines leave the barrier within nanoseconds
+						}
+					}
+				}
 				if c.Kind == "commit" && skipCommit {
 					skipCommit = false
 					continue
@@ -888,7 +923,11 @@ func main() {
 					jitter[i] = g.r.Intn(4)
 				}
 			}
-			h, fails, hang := runFree(scripts, jitter, 20*time.Second)
+			rounds := g.r.Chance(2, 3)
+			h, fails, hang := runFree(scripts, jitter, rounds, 20*time.Second)
+			if rounds {
+				st.Count(tag + ":rounds-mode")
+			}
 			if hang != nil {
 				hangs++
 				st.Fail(hangInfo{Kind: "hang", Seed: *seed, Index: n, InFlight: hang})
